@@ -232,6 +232,9 @@ pub use top::{LinkIter, LinksIter, SentRef};
 mod world;
 use world::World;
 
+#[cfg(feature = "verif-hooks")]
+pub mod verif;
+
 const TRACING_TARGET: &str = "turmoil";
 
 /// Utility method for performing a function on all hosts in `a` against all
